@@ -611,6 +611,7 @@ def main(argv=None):
     ap.add_argument("--budget", type=float)
     ap.add_argument("--replay")
     a = ap.parse_args(argv)
+    faulthandler.register(signal.SIGUSR1, all_threads=True)  # kill -USR1 <pid> prints where the main process is
     if a.replay:
         try:
             return replay_file(a.pid, a.replay)
